@@ -53,6 +53,8 @@ type Op struct {
 // Recorder collects the operations under one root directory; recorders are independent
 // so parallel harness cases (each with its own directory) do not interfere.
 type Recorder struct {
+	cancelAt int
+	cancelFn func()
 	root     string
 	log      []Op
 	failAt   map[int]bool
@@ -137,8 +139,18 @@ func pre(kind, path string) bool {
 		return true
 	}
 	r.mutCount++
+	if r.cancelAt == r.mutCount && r.cancelFn != nil {
+		// the harness's context is cancelled just before this call is made
+		fn := r.cancelFn
+		r.cancelFn = nil
+		fn()
+	}
 	return r.failAt[r.mutCount]
 }
+
+// CancelAt arranges for fn (a context's cancel function) to be called just before the n-th
+// mutating call.
+func (r *Recorder) CancelAt(n int, fn func()) { mu.Lock(); r.cancelAt, r.cancelFn = n, fn; mu.Unlock() }
 
 func rec(o Op) {
 	mu.Lock()
